@@ -1,6 +1,6 @@
 """C01: the REAL index-walking passes of mwlib.parser.refine.core on abstract token lists.
 
-stdin : JSON lines {"id":.., "k":"S|L|P|Q|U", "toks":[codes]}      (codes: see ocaml/c01p/driver.ml)
+stdin : JSON lines {"id":.., "k":"S|L|P|Q|U|F|C|R|T", "toks":[codes]}    (codes: see ocaml/c01p/driver.ml; F = ParsePreformatted)
 stdout: one JSON line each:
         {"id", "out": <sexp, same format as the driver>, "iters": <loop iterations>, "cp": <compute_path table, Q only>}
       | {"id", "exc": "<ExcType>: msg"}
@@ -17,9 +17,36 @@ warnings.simplefilter("ignore")
 logging.disable(logging.CRITICAL)
 from mwlib.parser import expander  # noqa: E402,F401
 from mwlib.parser.refine import core  # noqa: E402
+from mwlib.parser.refine import parse_table  # noqa: E402
 
 T = core.Token
 PFX = ":*#;"
+DTAGS = {"q": "blockquote", "t": "table", "l": "timeline", "d": "div", "s": "span"}
+
+
+# token codes of the table passes (C R T), see ocaml/c01p/driver.ml
+COLUMN_TEXT = {"|1": "|", "!1": " !", "|2": "||", "!2": "!!", "|!": "|!"}
+COLUMN_NAME = {"|": "|1", "!": "!1", "||": "|2", "!!": "!2", "|!": "|!"}
+TABLE_CODES = {
+    "_": lambda i: T(type=T.t_text, text=" ", aid=i),
+    "td": lambda i: T(type=T.t_html_tag, rawtagname="td", text="<td>", aid=i),
+    "th": lambda i: T(type=T.t_html_tag, rawtagname="th", text="<th>", aid=i),
+    "/td": lambda i: T(type=T.t_html_tag_end, rawtagname="td", text="</td>", aid=i),
+    "/th": lambda i: T(type=T.t_html_tag_end, rawtagname="th", text="</th>", aid=i),
+    "r": lambda i: T(type=T.t_row, text="|-", aid=i),
+    "tr": lambda i: T(type=T.t_html_tag, rawtagname="tr", text="<tr>", aid=i),
+    "/tr": lambda i: T(type=T.t_html_tag_end, rawtagname="tr", text="</tr>", aid=i),
+    "{": lambda i: T(type=T.t_begin_table, text=" {|", aid=i),
+    "tb": lambda i: T(type=T.t_html_tag, rawtagname="table", text="<table>", aid=i),
+    "}": lambda i: T(type=T.t_end_table, text="|}", aid=i),
+    "/table": lambda i: T(type=T.t_html_tag_end, rawtagname="table", text="</table>", aid=i),
+    "+": lambda i: T(type=T.t_tablecaption, text="|+", aid=i),
+    "|": lambda i: T(type=T.t_special, text="|", aid=i),
+    "[[": lambda i: T(type=T.t_2box_open, text="[[", aid=i),
+    "ref": lambda i: T(type=T.t_complex_tag, tagname="ref", children=[], aid=i),
+}
+for _c, _t in COLUMN_TEXT.items():
+    TABLE_CODES[_c] = (lambda t: lambda i: T(type=T.t_column, text=t, aid=i))(_t)
 
 
 class LoopBudgetExceeded(Exception):
@@ -59,6 +86,14 @@ def build(code, i):
         return T(type=T.t_html_tag_end, rawtagname=code[1:], text="</ul>", aid=i)
     if code == "B":
         return T(type=T.t_text, text="B", blocknode=True, aid=i)
+    if code in TABLE_CODES:
+        return TABLE_CODES[code](i)
+    if code == "w":
+        return T(type=T.t_pre, text=" ", aid=i)
+    if code == "F":
+        return T(type=T.t_complex_preformatted, children=[], blocknode=True, aid=i)
+    if c0 == "D":
+        return T(type=T.t_complex_tag, tagname=DTAGS[code[1:]], children=[], aid=i)
     if c0 == "s":
         return T(type=T.t_section, text="=" * int(code[1:]), aid=i)
     if c0 == "e":
@@ -90,6 +125,10 @@ def name_id(tok):
             return "eq%d" % len(text), aid
         if text.startswith("'"):
             return "ap%d" % len(text), aid
+        if text == "+":
+            return "plus", aid
+        if text == " ":
+            return "_", aid
         return "o", aid
     if ty == T.t_section:
         return "s%d" % tok.text.count("="), aid
@@ -112,11 +151,39 @@ def name_id(tok):
             return "]", aid
         if tok.text == ":":
             return ":", aid
+        if tok.text == "|":
+            return "|", aid
         return "special?%r" % tok.text, aid
     if ty == T.t_2box_close:
         return "2", aid
     if ty == T.t_html_tag_end:
         return "/" + str(tok.rawtagname), aid
+    if ty == T.t_pre:
+        return "pre", aid
+    if ty == T.t_column:
+        return COLUMN_NAME.get(tok.text.strip(), "column?%r" % tok.text), aid
+    if ty == T.t_html_tag:
+        return {"table": "tb"}.get(tok.rawtagname, str(tok.rawtagname)), aid
+    if ty == T.t_row:
+        return "r", aid
+    if ty == T.t_begin_table:
+        return "{", aid
+    if ty == T.t_end_table:
+        return "}", aid
+    if ty == T.t_tablecaption:
+        return "+", aid
+    if ty == T.t_2box_open:
+        return "[[", aid
+    if ty == T.t_complex_table_cell:
+        return "cell%s" % tok.tagname, aid
+    if ty == T.t_complex_table_row:
+        return "row", aid
+    if ty == T.t_complex_table:
+        return "table", aid
+    if ty == T.t_complex_caption:
+        return "cap", aid
+    if ty == T.t_complex_preformatted:
+        return "pref", aid
     if ty == T.t_complex_node:
         return "node%d" % bool(tok.blocknode), aid
     if ty == T.t_complex_section:
@@ -171,6 +238,31 @@ def run_case(c, r):
         core.ParseUrls(toks, None)
     elif k == "P":
         p = core.ParseParagraphs.__new__(core.ParseParagraphs)
+        p.tokens = toks
+        p.run()
+    elif k == "C":
+        parse_table.TableCellParser(toks, None)
+    elif k == "R":
+        parse_table.TableRowParser(toks, None)
+    elif k == "T":
+        # `while stack: make_table()` after the main loop does not evaluate len(tokens): its iterations are the calls of
+        # find_caption (one per make_table) made after the last loop test
+        seen = []
+        orig_fc = parse_table.TableParser.find_caption
+
+        def find_caption(self, table):
+            seen.append(toks.calls)
+            return orig_fc(self, table)
+
+        parse_table.TableParser.find_caption = find_caption
+        try:
+            parse_table.TableParser(toks, None)
+        finally:
+            parse_table.TableParser.find_caption = orig_fc
+        extra = 1 - sum(1 for c in seen if c == toks.calls)
+    elif k == "F":
+        # ParsePreformatted.__init__ walks the tree (get_token_walker) and calls run() on every child list: run() alone
+        p = core.ParsePreformatted.__new__(core.ParsePreformatted)
         p.tokens = toks
         p.run()
     elif k == "Q":
